@@ -328,6 +328,10 @@ def replay(v):
         return 1 if r.violations else 0
     if v["instance"].get("kind") == "history":
         from gcmpy.message_passing.equations.automated_equation import AutomatedEquation
+        try:
+            apply_letter(AutomatedEquation(), ALPHABET[0])
+        except Exception:
+            SYMBOLIC_OK[0] = False
         ae = AutomatedEquation()
         val = None
         for letter in v["history"]:
@@ -335,7 +339,7 @@ def replay(v):
         last = tuple(v["history"][-1])
         fresh = apply_letter(AutomatedEquation(), last)
         print("history", v["history"], "->", val, "fresh evaluator:", fresh)
-        return 1 if val != fresh else 0
+        return 0 if same_value(val, fresh) else 1
     run_identity(r, dict(v["instance"], kind="identity"))
     for x in r.violations:
         print(x["key"], x["message"][:800])
